@@ -144,6 +144,19 @@ CHECKS = {
             "carry defects that need a crafted u (probability ~2^-47 on random input) are the business of C04's carry-extreme families.",
             "TLA+ RFC 7748 ladder: exhaustive TLC on toy Montgomery curves + real-scale TLC trace validation of recorded X25519 calls",
             "5/C07"),
+    "C16": ("model_checking",
+            "Lattice.tla is Pornin's algorithm 4 as a state machine over exact integers; TLC explores it for toy orders 67 / 509 / 4093 and "
+            "EVERY k below 2^8 / 2^10 / 2^13: exact norms and inner product, lattice membership of both vectors, determinant, step bound, "
+            "termination (liveness under weak fairness) and the postcondition Short; MC_C01 proves on a complete toy curve that ANY vector "
+            "satisfying Short makes the delta-scaled equation equivalent to the declarative one. At real scale FindShortVector is recorded "
+            "inside internal/lattice under a watchdog on a structured family (all 2^j, 1/2^j, 2^j/3, L-2^j, r/q with r ~ 2^128..2^130 and q "
+            "of 40..90 bits, balanced splits, unreduced kL+e, random) and judged by Short with BigNat (plus the magnitudes/signs handed to "
+            "the multiplication); TripleScalarMulBasepointVartime and its expanded variant are recorded on torsion-laden A, C with extreme a "
+            "and the E[8] equivalence is recomputed by TLC.",
+            "Trusts TLC/SANY, BigNat/F25519/Edwards; a 5 s / 10 s watchdog stands for non-termination; the code's 512/384-bit and 128-bit "
+            "machine widths are modelled only through the toy width invariant and observed through the real-scale postcondition.",
+            "TLA+ state machine of the lattice reduction: exhaustive TLC at toy scale + real-scale TLC trace validation of recorded short vectors and triple multiplications",
+            "5/C16"),
 }
 
 NOT_YET = "check not built yet in this round (planned, see DESIGN.md section 11); not claimed until its machinery exists"
